@@ -687,7 +687,9 @@ func TestVerifC18Crash(t *testing.T) {
 		}
 		before := model.lines()
 		crashOp := vfC18GenOps(rt, 1, pool)[0]
-		mode := rapid.SampledFrom([]string{"crash", "crash", "fault"}).Draw(rt, "mode")
+		// crash: the process dies at the step; fault: the step reports an error; survived-panic: the step panics, the
+		// caller (an API handler under a recovery wrapper) survives, and whatever persist left on disk stays there
+		mode := rapid.SampledFrom([]string{"crash", "crash", "fault", "survived-panic"}).Draw(rt, "mode")
 		point := rapid.SampledFrom(vfC18CrashPoints).Draw(rt, "point")
 		after := model.clone()
 		changed := false
@@ -715,7 +717,7 @@ func TestVerifC18Crash(t *testing.T) {
 				return nil
 			}
 			fired = true
-			if mode == "crash" {
+			if mode == "crash" || mode == "survived-panic" {
 				panic(vfC18Crash{p})
 			}
 			return fmt.Errorf("injected fault at %s", p)
@@ -748,7 +750,7 @@ func TestVerifC18Crash(t *testing.T) {
 				rt.Fatalf("%s at %s during %v: local file %v is neither the previous list %v nor the new one %v", mode, point, crashOp, file, before, after.lines())
 			}
 		}
-		if mode == "fault" {
+		if mode == "fault" || mode == "survived-panic" {
 			// the instance lives on: memory holds the new list; a later successful mutation must bring the file back in line
 			model = after
 		} else {
@@ -791,6 +793,10 @@ func TestVerifC18Crash(t *testing.T) {
 			model = reM
 		}
 		post := vfC18GenOps(rt, rapid.IntRange(1, 4).Draw(rt, "npost"), pool)
+		if mode == "survived-panic" && (crashOp.Kind == "set" || crashOp.Kind == "setbatch") && rapid.Bool().Draw(rt, "undo") {
+			// what the interrupted mutation added is taken out again: nothing left behind by the interruption may bring it back
+			post = append(post, vfC18Op{Kind: "removebatch", Keys: crashOp.Keys})
+		}
 		// make sure at least one op really mutates, so a persist happens after the interruption
 		post = append(post, vfC18Op{Kind: "set", Keys: []string{"converge.marker.test."}})
 		for _, op := range post {
